@@ -76,7 +76,34 @@ def run(tier, seed):
         rep.violation(kind, '%s (%d programs), population at first discovery %r: `%s` -> %s' % (kind, cnt, [tuple(d)[:3] for d in pop], text, detail),
                       {'script': text, 'population': [list(d) for d in pop], 'detail': detail, 'part': 'dynamic'})
     rep.coverage['dynamic_population_programs'] = n_dyn
+    # two jobs enumerating the same lists of names at the same time (a queued and a background job)
+    from . import concur
+    from .. import par
+    pairs = [('repeat all as l begin on l end', 'repeat all as l begin off l end'),
+             ('repeat in group "g" as l begin on l end', 'repeat in group "g" and "c" as l with h from 10 to 30 begin print h end'),
+             ('repeat group as g begin print g end', 'repeat group as g with h cycle begin print g print h end'),
+             ('repeat in location "q" as l begin on l end', 'repeat location as p begin print p end')]
+    ctasks = concur.split([(world.POP_THREE, a, b, 1) for a, b in pairs], 4 if tier == 'quick' else 8)
+    cres = par.run_tasks(concur.pair_task, ctasks)
+    cexec = sum(r['execs'] for r in cres)
+    assert cexec > 20 * len(pairs)
+    for task, r in zip(ctasks, cres):
+        for kind, (cnt, choices, detail, texts) in r['viol'].items():
+            rep.violation(kind, '%s (%d schedules): %s; jobs %r' % (kind, cnt, detail, texts),
+                          {'pair': [list(t) for t in texts], 'choices': choices, 'detail': detail, 'schedules': cnt})
+    rep.coverage['concurrent_job_pairs'] = len(pairs)
+    rep.coverage['concurrent_schedules'] = cexec
+    rep.coverage['evaluations'] += cexec
+    rep.coverage['traces_validated_against_impl'] += cexec
+    rep.coverage['rule'] += '; %d pairs of jobs iterating over the same name lists on two controlled threads, every schedule with <=1 ' \
+                            'preemption at line granularity, each job compared with its solo run' % len(pairs)
     return rep
 
 
-replay = progcheck.replay
+def replay(path):
+    import json
+    v = json.load(open(path))
+    if 'pair' in v['witness']:
+        from . import concur
+        return concur.replay(world.POP_THREE, v['witness']['pair'], v['witness']['choices'])
+    return progcheck.replay(path)
